@@ -34,6 +34,7 @@ inductive Flow where
   | ifErr (thenB elseB : Flow)            -- `if err != nil` right after the last fallible call
   | clearErr
   | retOk
+  | retErrU                               -- returns a state-unavailable error (halts the node by design)
   | retErr (pos : String)                 -- returns an explicit non-nil error expression
   | retErrVar (pos : String)              -- `return …, err`
   | retLast (pos : String)                -- `return f(…)`: outcome of the call just made
@@ -207,6 +208,7 @@ def run : Nat → Flow → AState → Option Res
         | .unkW => both .write)
     | .clearErr => some { cont := [{ s with pend := .unk }], exits := [] }
     | .retOk => some { cont := [], exits := [{ st := s, kind := .ok, pos := "" }] }
+    | .retErrU => some { cont := [], exits := [{ st := s, kind := .errW, pos := "" }] }
     | .retErr pos => some { cont := [], exits := [{ st := s, kind := (if s.src = .write then .errW else .err), pos := origin s pos }] }
     | .retErrVar pos => some { cont := [], exits := [{ st := s, kind := exitKindVar s, pos := origin s pos }] }
     | .retLast pos => some { cont := [], exits := [{ st := s, kind := exitKindLast s, pos := origin s pos }] }
@@ -226,5 +228,38 @@ def flagged (fuel : Nat) (f : Flow) : Option (List String) :=
   | some r =>
     some (r.exits.foldl (fun acc e =>
       if outerDirty e && (e.kind == .err || e.kind == .maybe) then insertNew e.pos acc else acc) [])
+
+/-- Syntactic collection of the return sites at which a function may report an ordinary (not
+state-unavailable) error: the fatal-path ledger of a BeginBlock/EndBlock root (C10).  Linear walk;
+`src` is the kind of the most recent fallible call (so that `if err != nil { return … }` directly
+after a state write / total read is recognised as a state-unavailable return and skipped).
+Returns the sites and the call kind at the end of the flow. -/
+def sitesAux : Nat → Flow → Src → List String × Src
+  | 0, _, src => ([], src)
+  | fuel + 1, f, src =>
+    match f with
+    | .skip | .clearErr | .halt | .closureRet | .retOk | .retErrU => ([], src)
+    | .seq l => l.foldl (fun (acc : List String × Src) g =>
+        let r := sitesAux fuel g acc.2
+        (union acc.1 r.1, r.2)) ([], src)
+    | .alt l => l.foldl (fun (acc : List String × Src) g =>
+        let r := sitesAux fuel g src
+        (union acc.1 r.1, .ext)) ([], src)
+    | .loop b => ((sitesAux fuel b src).1, .ext)
+    | .ext | .publish _ => ([], .ext)
+    | .extU | .write _ _ => ([], .write)
+    | .mk _ _ | .beginTx _ _ | .commitTx _ => ([], src)
+    | .call _ body => ((sitesAux fuel body .none).1, .call)
+    | .ifErr t e =>
+      let rt := sitesAux fuel t src
+      let re := sitesAux fuel e .none
+      (union rt.1 re.1, .none)
+    | .retErr pos => (if src == .write then [] else [pos], src)
+    | .retErrVar pos | .retLast pos =>
+      -- propagation of an inlined callee's error: the origin is listed inside the callee
+      (if src == .write || src == .call then [] else [pos], src)
+    | .retMaybe pos => ([pos], src)
+
+def errSites (fuel : Nat) (f : Flow) : List String := (sitesAux fuel f .none).1
 
 end OasisModel.Handlers
